@@ -1,6 +1,7 @@
 package main
 
 import (
+	"go/types"
 	"sort"
 	"strings"
 
@@ -8,12 +9,40 @@ import (
 )
 
 // Callbacks that may run while a lock is held, each with its reason (C03.R4).
-var c03CallbackTable = map[string]string{
-	"EventStore.Append|EventBus.storeMu":                    "the store is the serialised resource; bundled stores never call back into a bus",
-	"collectionApplier.clear|Materializer.mu":               "storage operation of a registered collection, not a user callback of the bus",
-	"Upcaster.Upcast|upcastRegistry.mu(R)":                  "upcasters are not among the callbacks the property allows to re-enter; held in read mode",
-	"upcastRegistry.errorHandler|upcastRegistry.mu(R)":      "upcast error handler, same assumption as upcasters; held in read mode",
-	"internalHandler.handler|internalHandler.mu":            "the sequential lock serialises the handler itself by design (documented exception: a synchronous Sequential handler publishing to itself)",
+// c03CallbackException: the reasoned exceptions to "no callback while a lock is held",
+// stated by role (the field and type names are discovered, not assumed).
+func c03CallbackException(p *Prog, R *BusRoles, callee, held string) (string, bool) {
+	mem := discoverMem(p)
+	up := R.UpRegT.Obj().Name()
+	switch {
+	case callee == "EventStore.Append" && held == "EventBus."+R.BusStoreMu:
+		return "the store is the serialised resource; bundled stores never call back into a bus", true
+	case held == "Materializer."+mem.MatMu && isStateInterfaceMethod(p, callee):
+		return "storage operation of a registered collection, not a user callback of the bus", true
+	case callee == "Upcaster.Upcast" && held == up+"."+R.UpMu+"(R)":
+		return "upcasters are not among the callbacks the property allows to re-enter; held in read mode", true
+	case callee == up+"."+R.UpErrH && held == up+"."+R.UpMu+"(R)":
+		return "upcast error handler, same assumption as upcasters; held in read mode", true
+	case callee == R.RegName()+"."+R.RegHandler && held == R.RegName()+"."+R.RegMu:
+		return "the sequential lock serialises the handler itself by design (documented exception: a synchronous Sequential handler publishing to itself)", true
+	}
+	return "", false
+}
+
+// isStateInterfaceMethod: callee is "<T>.<m>" for an unexported interface type T declared
+// in the state package (the type-erased view of a registered collection).
+func isStateInterfaceMethod(p *Prog, callee string) bool {
+	i := strings.Index(callee, ".")
+	pk := p.All[PkgState]
+	if i < 0 || pk == nil {
+		return false
+	}
+	o := pk.Types.Scope().Lookup(callee[:i])
+	if o == nil || o.Exported() {
+		return false
+	}
+	_, isIface := o.Type().Underlying().(*types.Interface)
+	return isIface
 }
 
 func init() {
@@ -62,7 +91,7 @@ func runC03(c *Ctx) {
 	sort.Strings(keys)
 	for _, k := range keys {
 		cb := res.Callbacks[k]
-		if why, ok := c03CallbackTable[cb.Callee+"|"+cb.Held]; ok {
+		if why, ok := c03CallbackException(p, R, cb.Callee, cb.Held); ok {
 			c.Discharge("C03.R4", "callback-under-lock/"+k, cb.Pos, "table exception: "+why)
 		} else {
 			c.Violate("C03.R4", "callback-under-lock/"+k, cb.Pos, "callback "+cb.Callee+" is invoked while holding "+cb.Held+": if it calls back into the bus (publish, subscribe, unsubscribe, clear) or blocks, the caller deadlocks", cb.Witness)
@@ -81,7 +110,7 @@ func runC03(c *Ctx) {
 		{PkgBus, R.RegName(), nil},
 		{PkgState, "materializerConfig", nil},
 		{PkgState, "changeConfig", nil},
-		{PkgState, "Materializer", map[string]bool{"collections": true, "lastOffset": true}},
+		{PkgState, "Materializer", map[string]bool{discoverMem(p).MatColl: true, discoverMem(p).MatOffset: true}},
 		{PkgState, "TypedCollection", nil},
 	}
 	nw := checkWriters(c, p, "C03.R2", specs)
